@@ -5,6 +5,7 @@ Runs under python3-vt (z3).  Nothing here knows about rdflib.
 from __future__ import annotations
 
 import itertools
+import os
 import time
 import z3
 
@@ -872,6 +873,7 @@ def explore(run_one, axioms=(), max_paths=4000, deadline=None, forced=()):
             raise Unsupported("path exploration deadline")
         p = Path(prefix, axioms, forced=forced)
         res = None
+        _t0 = time.time()
         try:
             out = run_one(p)
             res = PathResult(p, out[0], out[1])
@@ -881,10 +883,14 @@ def explore(run_one, axioms=(), max_paths=4000, deadline=None, forced=()):
             res = PathResult(p, "end", e.why)
         except PyExc as e:
             res = PathResult(p, "raise", None, e)
+        if os.environ.get("PYVC_TRACE"):
+            print(f"[path {len(results)} work={len(work)}] decisions={len(p.taken)} "
+                  f"outcome={res.outcome if res else 'infeasible'} {getattr(res, 'value', '')!s:.60} "
+                  f"{time.time() - _t0:.1f}s", flush=True)
         if res is not None:
             # a path shorter than the forced prefix belongs to the all-True completion only
-            n = len(p.taken)
-            if n >= len(forced) or all(forced[n:]):
+            nt = len(p.taken)
+            if nt >= len(forced) or all(forced[nt:]):
                 results.append(res)
         work.extend(p.alternatives)
     return results
